@@ -1,7 +1,8 @@
-(* PoolModel (pool.OnDemandBlockTaskPool), proofs for C12 / liveness side of C10 - B5d: the two invariants the repaired code relies on (K: >= initGo counted non-timer workers while
-   live; J: in closing the last decrementer is on its way to the transition): DEFINITIONS ONLY - their
-   preservation is not proved yet *)
-From Ekit Require Import Common Conc PoolModel PoolProofB0 PoolProofB1 PoolProofB2d PoolProofB2bd PoolProofB3d PoolProofB4d.
+(* PoolModel (pool.OnDemandBlockTaskPool), proofs for C12 / liveness side of C10 - B5d: the invariants the repaired code relies on - K (>= initGo counted non-timer workers while live, with
+   its two guards), J (in closing the last decrementer is on its way to the CAS), Q, the cancel bridge:
+   definitions, the record, the facts after a step field by field *)
+From Ekit Require Import Common Conc PoolModel
+  PoolProofB0 PoolProofB1 PoolProofB2d PoolProofB2bd PoolProofB3d PoolProofB4d.
 From Coq Require Import ZifyBool Arith PeanoNat.
 
 (* [cnt_ning] (counted workers that are not effective members of the timeout group) is in PB4 *)
@@ -120,3 +121,66 @@ Record invK (c : pcfg) : Prop := {
 Record invK2 (c : pcfg) : Prop := {
   k_cl : tsum (clrecv_bad (s_closed (c_sh c) && qe (c_sh c))) (c_thr c) = 0
 }.
+Definition invK_G0 (P : params) (g : ghost) (l : list (tid * thr)) (th : thr) (o : pout) : Prop :=
+  (bz (g_began (apply_gevs g (o_gev o))) - upd (tsum (pcf g_spa) l) ((pcf g_spa) th) (oz (pcf g_spa) (o_th o)) (oz (pcf g_spa) (o_spawn o)) - eqst (s_state (o_sh o)) SStopped <= 0 \/ (s_closed (o_sh o) = true /\ qe (o_sh o) = true) \/ i_init P <= upd (tsum (cnt_ning (s_mp (o_sh o))) l) ((cnt_ning (s_mp (o_sh o))) th) (oz (cnt_ning (s_mp (o_sh o))) (o_th o)) (oz (cnt_ning (s_mp (o_sh o))) (o_spawn o)) + upd (tsum pend l) (pend th) (oz pend (o_th o)) (oz pend (o_spawn o))).
+
+Definition invK_G1 (P : params) (g : ghost) (l : list (tid * thr)) (th : thr) (o : pout) : Prop :=
+  (s_ictx (o_sh o) = true \/ upd (tsum (pcf g_gadd) l) ((pcf g_gadd) th) (oz (pcf g_gadd) (o_th o)) (oz (pcf g_gadd) (o_spawn o)) = 0 \/ i_init P + 1 <= upd (tsum (cnt_ning (s_mp (o_sh o))) l) ((cnt_ning (s_mp (o_sh o))) th) (oz (cnt_ning (s_mp (o_sh o))) (o_th o)) (oz (cnt_ning (s_mp (o_sh o))) (o_spawn o)) + upd (tsum pend l) (pend th) (oz pend (o_th o)) (oz pend (o_spawn o))).
+
+Definition invK_G2 (P : params) (g : ghost) (l : list (tid * thr)) (th : thr) (o : pout) : Prop :=
+  (s_ictx (o_sh o) = true \/ upd (tsum (pcf g_gdec) l) ((pcf g_gdec) th) (oz (pcf g_gdec) (o_th o)) (oz (pcf g_gdec) (o_spawn o)) = 0 \/ i_init P + 1 <= upd (tsum (cnt_ning (s_mp (o_sh o))) l) ((cnt_ning (s_mp (o_sh o))) th) (oz (cnt_ning (s_mp (o_sh o))) (o_th o)) (oz (cnt_ning (s_mp (o_sh o))) (o_spawn o)) + upd (tsum pend l) (pend th) (oz pend (o_th o)) (oz pend (o_spawn o))).
+
+Definition invK_G3 (P : params) (g : ghost) (l : list (tid * thr)) (th : thr) (o : pout) : Prop :=
+  (eqst (s_state (o_sh o)) SClosing + bz (s_total (o_sh o) =? 0) - 1 <= upd (tsum will l) (will th) (oz will (o_th o)) (oz will (o_spawn o))).
+
+Definition invK_G4 (P : params) (g : ghost) (l : list (tid * thr)) (th : thr) (o : pout) : Prop :=
+  (upd (tsum (zr_bad (s_total (o_sh o) =? 0)) l) ((zr_bad (s_total (o_sh o) =? 0)) th) (oz (zr_bad (s_total (o_sh o) =? 0)) (o_th o)) (oz (zr_bad (s_total (o_sh o) =? 0)) (o_spawn o)) = 0).
+
+Definition invK_G5 (P : params) (g : ghost) (l : list (tid * thr)) (th : thr) (o : pout) : Prop :=
+  (upd (tsum (pcf g_canc) l) ((pcf g_canc) th) (oz (pcf g_canc) (o_th o)) (oz (pcf g_canc) (o_spawn o)) = 0 \/ (qe (o_sh o) = true /\ upd (tsum (pcf g_cnt) l) ((pcf g_cnt) th) (oz (pcf g_cnt) (o_th o)) (oz (pcf g_cnt) (o_spawn o)) = 0)).
+
+Definition invK_G6 (P : params) (g : ghost) (l : list (tid * thr)) (th : thr) (o : pout) : Prop :=
+  (bz (g_grace (apply_gevs g (o_gev o))) <= bz (qe (o_sh o))).
+
+Definition invK_G7 (P : params) (g : ghost) (l : list (tid * thr)) (th : thr) (o : pout) : Prop :=
+  (upd (tsum (cnt_bad (g_grace (apply_gevs g (o_gev o)))) l) ((cnt_bad (g_grace (apply_gevs g (o_gev o)))) th) (oz (cnt_bad (g_grace (apply_gevs g (o_gev o)))) (o_th o)) (oz (cnt_bad (g_grace (apply_gevs g (o_gev o)))) (o_spawn o)) = 0).
+
+Definition invK_G (P : params) (g : ghost) (l : list (tid * thr)) (th : thr) (o : pout) : Prop :=
+  invK_G0 P g l th o /\
+  invK_G1 P g l th o /\
+  invK_G2 P g l th o /\
+  invK_G3 P g l th o /\
+  invK_G4 P g l th o /\
+  invK_G5 P g l th o /\
+  invK_G6 P g l th o /\
+  invK_G7 P g l th o.
+
+Lemma invK_G_intro P g l th o :
+  invK_G0 P g l th o -> invK_G1 P g l th o -> invK_G2 P g l th o -> invK_G3 P g l th o -> invK_G4 P g l th o -> invK_G5 P g l th o -> invK_G6 P g l th o -> invK_G7 P g l th o -> invK_G P g l th o.
+Proof. unfold invK_G. tauto. Qed.
+
+Lemma invK_of_G c t th o c' obs :
+  lookup t (c_thr c) = Some th -> apply_out c t o = Some (c', obs) ->
+  invK_G (c_par c) (c_gh c) (c_thr c) th o -> invK c'.
+Proof.
+  intros Hl Ha G. unfold invK_G, invK_G0, invK_G1, invK_G2, invK_G3, invK_G4, invK_G5, invK_G6, invK_G7 in G. destruct (apply_out_fields _ _ _ _ _ Ha) as (Hp & Hsh & Hgh & Hnt).
+  destruct G as (G0 & G1 & G2 & G3 & G4 & G5 & G6 & G7).
+  constructor; intros; rewrite ?Hp, ?Hsh, ?Hgh in *;
+    try rewrite (tsum_step (pcf g_spa) c t th o c' obs Hl ((pcf_wake_ok g_spa eq_refl eq_refl) (o_wake o)) Ha);
+    try rewrite (tsum_step (cnt_ning (s_mp (o_sh o))) c t th o c' obs Hl ((cnt_ning_wake (s_mp (o_sh o))) (o_wake o)) Ha);
+    try rewrite (tsum_step pend c t th o c' obs Hl (pend_wake (o_wake o)) Ha);
+    try rewrite (tsum_step (pcf g_gadd) c t th o c' obs Hl ((pcf_wake_ok g_gadd eq_refl eq_refl) (o_wake o)) Ha);
+    try rewrite (tsum_step (pcf g_gdec) c t th o c' obs Hl ((pcf_wake_ok g_gdec eq_refl eq_refl) (o_wake o)) Ha);
+    try rewrite (tsum_step will c t th o c' obs Hl (will_wake (o_wake o)) Ha);
+    try rewrite (tsum_step (zr_bad (s_total (o_sh o) =? 0)) c t th o c' obs Hl ((zr_bad_wake (s_total (o_sh o) =? 0)) (o_wake o)) Ha);
+    try rewrite (tsum_step (pcf g_canc) c t th o c' obs Hl ((pcf_wake_ok g_canc eq_refl eq_refl) (o_wake o)) Ha);
+    try rewrite (tsum_step (pcf g_cnt) c t th o c' obs Hl ((pcf_wake_ok g_cnt eq_refl eq_refl) (o_wake o)) Ha);
+    try rewrite (tsum_step (cnt_bad (g_grace (apply_gevs (c_gh c) (o_gev o)))) c t th o c' obs Hl ((cnt_bad_wake (g_grace (apply_gevs (c_gh c) (o_gev o)))) (o_wake o)) Ha);
+    first [assumption | solve [auto]].
+Qed.
+
+
+Lemma cnt_ning_z1 mp mp' y : zmem (l_wid y) mp' = zmem (l_wid y) mp -> cnt_ning mp' y = cnt_ning mp y.
+Proof. intros H. cbn [cnt_ning]. rewrite H. reflexivity. Qed.
+Lemma cnt_ning_z2 mp mp' y : g_own (pc y) = 0 -> cnt_ning mp' y = cnt_ning mp y.
+Proof. cbn [cnt_ning]. destruct (pc y); cbn; intros H; try discriminate H; destruct (zmem (l_wid y) mp'), (zmem (l_wid y) mp); reflexivity. Qed.
